@@ -1,6 +1,7 @@
 import OhkamiModel.M.ResponseProofs
 import OhkamiModel.M.ResponseWire
 import OhkamiModel.M.Framing
+import OhkamiModel.M.ResponseNames
 /-! # C03 — property theorems (statements only; the proofs are in OhkamiModel/M/ResponseProofs.lean) -/
 namespace C03
 open Ohkami Ohkami.Response
@@ -73,5 +74,25 @@ theorem end_determinable (status : Nat) (ops : List Ohkami.Framing.Op) :
 /-- a history in which a stream is replaced, dropped and set again (the histories repaired by 425e3ae and 75d3d56) -/
 example : Ohkami.Framing.build 200 [.stream, .payload 5, .drop, .stream, .stream] false = ⟨200, .stream, none, true⟩ ∧
     Ohkami.Framing.build 200 [.stream, .payload 5] true = ⟨200, .none, some 5, false⟩ := by decide
+
+/-! ### one header per field name, whatever its letter case and whichever way the API was given it -/
+
+/-- **No field name gets two lines, in whatever spelling it was given.**  For every history of public operations (typed setters, `.x(name, ..)` with
+names in any letter case — names of the standard table among them —, cookies, payloads, `drop_content`), every status: among the lines written for
+names outside the table no two names are equal ignoring case (`linesFor .. n ≤ 1` for every `n`), and none of them is a name of the table
+(`strays = 0`): those are written from the table, where `live_exact` gives one line per name. -/
+theorem names_apart (c : Cfg) (status : Nat) (date : Bytes) (ops : List ROp) (hv : ∀ op ∈ ops, op.viaApi) :
+    (∀ n, linesFor (build c status date ops).headers.custom n ≤ 1) ∧ strays c (build c status date ops).headers.custom = 0 :=
+  Response.names_apart c status date ops hv
+
+/-- a registered name given to `.x` in any spelling is the header of its typed setter -/
+theorem x_reaches_the_table (c : Cfg) (h : Headers) (n v : Bytes) (k : Nat) (hk : stdIdx c n = some k) :
+    resolveX c h (.set n v) = .insert k v ∧ resolveX c h (.remove n) = .remove k ∧ resolveX c h (.append n v) = .append k v := by
+  simp [resolveX, hk]
+
+-- not vacuous: `x-a`, `X-A`, `X-a` are one line; `server` through `.x` is the table's `Server`
+example : let c : Cfg := ⟨[[83, 101, 114, 118, 101, 114], [68], [76], [84]], 2, 3, 1, fun _ => []⟩
+    let r := build c 200 [49] [.x (.set [120, 45, 97] [49]), .x (.set [88, 45, 65] [50]), .x (.append [88, 45, 97] [51]), .x (.set [115, 101, 114, 118, 101, 114] [52])]
+    r.headers.custom = [([120, 45, 97], [50, 44, 32, 51])] ∧ r.headers.std.get 0 = some [52] := by decide
 
 end C03
